@@ -72,6 +72,10 @@ def _cases(tier, seed):
                 if op == 'div' and iv == 0:
                     continue
                 cs.append({'scen': 'ttm_scalar', 's': {'op': op, 'M': M, 'N': N, 'RA': RA, 'dtype': 'float64', 'skind': 'int', 'ival': iv}})
+        if len(N) <= 2:
+            for op in ('div', 'mul'):
+                for tval, tdt in ((3, 'int64'), ([7], 'int64'), (3.0, 'float32')):
+                    cs.append({'scen': 'ttm_scalar', 's': {'op': op, 'M': M, 'N': N, 'RA': RA, 'dtype': 'float64', 'skind': 'tensor_concrete', 'tval': tval, 'tdtype': tdt}})
         cs.append({'scen': 'ttm_scalar', 's': {'op': 'neg', 'M': M, 'N': N, 'RA': RA, 'dtype': 'float64', 'skind': 'none'}})
     for dt in ('float64', 'complex128'):
         for op in ('mul', 'rmul'):
